@@ -25,7 +25,7 @@ for W in 1 4 16; do
   for i in $(seq 1 $n); do
     gmp=$(( (i % 3 == 0) ? 1 : ((i % 3 == 1) ? 4 : 16) ))
     d="$S/log.$W.$i"; mkdir "$d"
-    GOMAXPROCS=$gmp VERIF_WORKERS=$W VERIF_DIGEST_LOG="$d/dig" "$S/bornosim" check "$ID" quick > "$d/out" 2>&1
+    GOMAXPROCS=$gmp VERIF_WORKERS=$W VERIF_DIGEST_LOG="$d/dig" "$S/bornosim" check "$ID" quick > "$d/out" 2>&1 || { echo "check exited non-zero:"; tail -3 "$d/out"; }
     cat $(ls "$d"/dig.* | sort -V) > "$d/all"
     if [ -z "$ref" ]; then ref="$d/all"; else
       if ! cmp -s "$ref" "$d/all"; then echo "DIVERGENCE: workers=$W run $i differs from run 1"; diff "$ref" "$d/all" | head -5; fail=1; fi
